@@ -39,7 +39,7 @@ from .common import hx, unhx
 
 PROP = "C04"
 EXE = "drv_c04"
-GEN_MODULES = ["Backend"]
+GEN_MODULES = ["Backend", "BackendSites"]
 RULE = ("one seeded PRNG; every op line is one call of a dual-path API, executed on both backends in-process "
         "(set_libsecp256k1_serving True/False) and canonicalised to value bytes | error class; inputs are mostly "
         "valid (random scalars/points/keys/signatures/transactions built with the real code) plus the hostile "
@@ -351,8 +351,9 @@ def dual(ctx, api, lines, key=None, model=False):
                    key=key or f"dual.{api}", witness={"oracle": "dual", "witness": ln},
                    nontrivial=not (a.startswith("err") and b.startswith("err")))
         ctx.count(f"dual.{api}", (a.split(" ")[0] if not a.startswith("err") else a) if a == b else "DIVERGE")
-    if model and lines:
-        ctx.correspond(f"model.{api}", EXE, [(ln, mcanon(api, both(ln)[1])) for ln in lines])
+    mlines = [ln for ln in lines if model is True or (callable(model) and model(ln))]
+    if mlines:
+        ctx.correspond(f"model.{api}", EXE, [(ln, mcanon(api, both(ln)[1])) for ln in mlines])
 
 
 _INF_RE = None
@@ -361,7 +362,7 @@ _INF_RE = None
 def mcanon(api, out):
     """the model names the point at infinity `inf` whatever its spelling (btclib answers INF = (5, 0), or echoes (x, 0))"""
     global _INF_RE  # noqa: PLW0603
-    if api in ("isx", "yeven", "pubkey", "sfo") or not out.startswith("ok "):
+    if api in ("isx", "yeven", "pubkey", "sfo") or "." in api or not out.startswith("ok "):
         return out
     if _INF_RE is None:
         import re  # noqa: PLC0415
@@ -445,7 +446,7 @@ def key_lattice(rng):
 
 # ------------------------------------------------------------------ stream builders
 def s_curve(ctx, rng):  # noqa: PLR0912, PLR0915
-    n = ctx.n(40, 800)
+    n = ctx.n(120, 3200)
     L = {k: [] for k in ("mult", "prepared", "dmult", "mmult", "sum", "tweakadd", "tweakchain", "isx", "yeven", "mmultx")}
     xr = {k: [] for k in L}  # x outside 0..p-1: recorded divergence (OverflowError on the bindings arm)
     pl = point_lattice(rng)
@@ -485,7 +486,7 @@ def s_curve(ctx, rng):  # noqa: PLR0912, PLR0915
         put("dmult", f"dual.dmult {g_scalar(rng)} {f_pt(rng.choice([G, g_point(rng)]))} {g_scalar(rng)} {f_pt(g_point(rng))}")
         ctx.count("dmult.class", "random_valid")
     # multi mult / sum: term counts 0..40 (Bos-Coster threshold crossed on the Python arm), hostile terms, cancelling terms
-    for k in [0, 1, 2, 3, 4, 5, 8, 16, 33, 40] + [rng.randrange(2, 12) for _ in range(ctx.n(12, 200))]:
+    for k in [0, 1, 2, 3, 4, 5, 8, 16, 33, 40] + [rng.randrange(2, 12) for _ in range(ctx.n(36, 800))]:
         terms = [(g_scalar(rng), g_point(rng)) for _ in range(k)]
         kind = rng.choice(["valid", "valid", "zero_scalar", "inf_term", "cancel", "off_curve", "x_range", "scalar_edge"]) if k else "empty"
         if kind == "zero_scalar" and k:
@@ -522,7 +523,7 @@ def s_curve(ctx, rng):  # noqa: PLR0912, PLR0915
     for t in (N - q, -q, 2 * N - q):
         ctx.count("tweakadd.class", "sum_is_infinity")
         L["tweakadd"].append(f"dual.tweakadd {f_pt(Pq)} {t}")
-    for _ in range(ctx.n(20, 300)):
+    for _ in range(ctx.n(60, 1200)):
         base_q = g_scalar(rng)
         base = rng.choice([_PY_MULT(base_q), _PY_MULT(base_q), (0, 0), (5, 0)])
         ts = [rng.choice([g_scalar(rng), 0, N, 1, N - base_q, -base_q, N + 5]) for _ in range(rng.randrange(1, 7))]
@@ -547,8 +548,20 @@ def s_curve(ctx, rng):  # noqa: PLR0912, PLR0915
     for api, lines in xr.items():
         if lines:
             ctx.count("x_out_of_range", api, len(lines))
-            dual(ctx, api + ".x_out_of_range", sorted(set(lines))[:ctx.n(6, 40)], key="curve.x_out_of_range_backend_divergence")
+            dual(ctx, api + ".x_out_of_range", sorted(set(lines))[:ctx.n(18, 160)], key="curve.x_out_of_range_backend_divergence")
 
+
+def _m_dsa_sign(ln):
+    return ln.endswith(" -")  # no pub_key= argument
+
+
+def _m_ssa_assert(ln):
+    t = ln.split(" ")
+    return "," not in t[2] and len(t[2]) == 64 and ":" in t[3]
+
+
+# the schemes' own models (properties C02 / C03), for the entry points whose argument forms they cover
+MODEL_FILTER = {"dsa.sign": _m_dsa_sign, "dsa.signrec": True, "ssa.sign": True, "ssa.assert": _m_ssa_assert}
 
 MODELLED = {"mult", "prepared", "dmult", "mmult", "sum", "tweakadd", "tweakchain", "isx", "yeven", "mmultx", "pubkey", "pfo",
             "sfo", "multsec"}
@@ -560,9 +573,9 @@ def s_sec(ctx, rng):
         ctx.count("pubkey.class", cs)
         for c in (True, False):
             L["pubkey"].append(f"dual.pubkey {m} {f_b(c)}")
-    for _ in range(ctx.n(30, 500)):
+    for _ in range(ctx.n(90, 2000)):
         L["pubkey"].append(f"dual.pubkey {g_scalar(rng)} {f_b(rng.random() < 0.5)}")
-    for rep in range(ctx.n(2, 20)):
+    for rep in range(ctx.n(6, 80)):
         for ck, k in key_lattice(rng):
             ctx.count("key.class", ck)
             for hyb in (False, True):
@@ -575,7 +588,7 @@ def s_sec(ctx, rng):
                 continue
             for m in (g_scalar(rng), 0, N) if rep == 0 else (g_scalar(rng),):
                 L["multsec"].append(f"dual.multsec {hx(k)} {m}")
-    for _ in range(ctx.n(30, 500)):
+    for _ in range(ctx.n(90, 2000)):
         k = sec_of(g_point(rng), rng.random() < 0.7)
         L["pfo"].append(f"dual.pfo {hx(k)} 0")
         L["sfo"].append(f"dual.sfo {hx(k)}")
@@ -650,7 +663,7 @@ def s_dsa(ctx, rng):  # noqa: PLR0912, PLR0915
         ctx.count("dsa.sign.class", "pubkey_own" if tok != hx(sec_of(G)) else "pubkey_foreign")
         L["dsa.sign"].append(f"dual.dsa.sign {hx(msg)} {q} - 1 1 1 {tok}")
         L["dsa.sign"].append(f"dual.dsa.sign {hx(msg)} {q} - 1 1 0 {tok}")
-    for _ in range(ctx.n(30, 600)):
+    for _ in range(ctx.n(90, 2400)):
         m, qq = common.rand_bytes(rng, 32), g_scalar(rng)
         ls, gr, vf = rng.random() < 0.8, rng.random() < 0.6, rng.random() < 0.7
         ctx.count("dsa.sign.class", f"random ls={f_b(ls)} grind={f_b(gr)}")
@@ -696,7 +709,7 @@ def s_dsa(ctx, rng):  # noqa: PLR0912, PLR0915
     u = sec_of(Q, False)
     for pre in (6 + (Q[1] & 1), 7 - (Q[1] & 1)):
         L["eng.dsa"].append(f"dual.eng.dsa {hx(msg)} {hx(bytes([pre]) + u[1:])} {sigs[1][1]}")
-    for _ in range(ctx.n(30, 600)):
+    for _ in range(ctx.n(90, 2400)):
         m, qq = common.rand_bytes(rng, 32), g_scalar(rng)
         with arm(True):
             sg = dsa.sign_(m, qq, lower_s=rng.random() < 0.7, grind=False, nonce=g_scalar(rng))
@@ -710,7 +723,7 @@ def s_dsa(ctx, rng):  # noqa: PLR0912, PLR0915
         if sg.s <= N // 2:
             L["eng.dsa"].append(f"dual.eng.dsa {hx(m)} {kt} {hx(der(sg.r, sg.s))}")
     for api, lines in L.items():
-        dual(ctx, api, lines, model=api in MODELLED)
+        dual(ctx, api, lines, model=MODEL_FILTER.get(api, False))
     ctx.count("eng.dsa.class", "high_s_der", len(eng_high_s))
     dual(ctx, "eng.dsa.high_s", eng_high_s[:1], key="engine.dsa_verify.high_s_backend_divergence")
     dual(ctx, "dsa.verify.hybrid_key", hybrid_lines, key="dsa.verify.hybrid_key_backend_divergence")
@@ -742,7 +755,7 @@ def s_ssa(ctx, rng):  # noqa: PLR0915
     for ln in (0, 16, 31, 33, 64):
         ctx.count("ssa.sign.class", f"aux_len_{ln}")
         L["ssa.sign"].append(f"dual.ssa.sign {hx(msg)} {q} {hx(common.rand_bytes(rng, ln))} 1")
-    for _ in range(ctx.n(30, 600)):
+    for _ in range(ctx.n(90, 2400)):
         ctx.count("ssa.sign.class", "random")
         m = common.rand_bytes(rng, rng.choice([32, 32, 32, 0, 5, 70]))
         L["ssa.sign"].append(f"dual.ssa.sign {hx(m)} {g_scalar(rng)} {hx(common.rand_bytes(rng, 32))} {f_b(rng.random() < 0.7)}")
@@ -780,7 +793,7 @@ def s_ssa(ctx, rng):  # noqa: PLR0915
     for ln in (0, 31, 33):
         L["eng.ssa"].append(f"dual.eng.ssa {hx(common.rand_bytes(rng, ln))} {hx(xb)} {sig_l[1][1]}")
     # batches: valid, one bad member, duplicated member, hostile member
-    for _ in range(ctx.n(12, 200)):
+    for _ in range(ctx.n(36, 800)):
         k = rng.choice([1, 2, 3, 5, 9, 17])
         items = []
         for _i in range(k):
@@ -806,7 +819,7 @@ def s_ssa(ctx, rng):  # noqa: PLR0915
             items[j][2] = f"{items[j][2].split(':')[0]}:{N}"
         ctx.count("ssa.batch.class", f"{kind}|k={k}")
         L["ssa.batch"].append("dual.ssa.batch " + " ".join("/".join(i) for i in items))
-    for _ in range(ctx.n(30, 600)):
+    for _ in range(ctx.n(90, 2400)):
         qq, m = g_scalar(rng), common.rand_bytes(rng, rng.choice([32, 32, 0, 50]))
         with arm(True):
             s2 = ssa.sign_(m, qq, common.rand_bytes(rng, 32))
@@ -814,7 +827,7 @@ def s_ssa(ctx, rng):  # noqa: PLR0915
         L["ssa.verify"].append(f"dual.ssa.verify {hx(m)} {hx(xx.to_bytes(32, 'big'))} {hx(s2.serialize())}")
         L["eng.ssa"].append(f"dual.eng.ssa {hx(m)} {hx(xx.to_bytes(32, 'big'))} {hx(s2.serialize())}")
     for api, lines in L.items():
-        dual(ctx, api, lines, model=api in MODELLED)
+        dual(ctx, api, lines, model=MODEL_FILTER.get(api, False))
 
 
 
@@ -862,7 +875,7 @@ def _h160(b):
 def s_bms(ctx, rng):
     from btclib import b58, b32  # noqa: PLC0415
     L = {k: [] for k in ("bms.sign", "bms.assert", "bms.verify")}
-    for i in range(ctx.n(10, 150)):
+    for i in range(ctx.n(30, 600)):
         q = g_scalar(rng)
         compressed = rng.random() < 0.7
         wif = b58.wif_from_prv_key(q, "mainnet", compressed)
@@ -905,7 +918,7 @@ def s_bms(ctx, rng):
 def s_bip32(ctx, rng):
     L = []
     H = 0x80000000
-    for i in range(ctx.n(12, 200)):
+    for i in range(ctx.n(36, 800)):
         seed = common.rand_bytes(rng, rng.choice([16, 32, 64]))
         xprv = bip32.rootxprv_from_seed(seed)
         xprv = xprv if isinstance(xprv, str) else xprv.decode()
@@ -955,7 +968,7 @@ def s_taproot(ctx, rng):
     L = {k: [] for k in ("tap.outroot", "tap.outpub", "tap.prvroot", "tap.check")}
     hyb_lines = []
     nx = non_x(rng)
-    for _ in range(ctx.n(25, 400)):
+    for _ in range(ctx.n(75, 1600)):
         q = g_scalar(rng)
         Q = _PY_MULT(q)
         root = rng.choice([b"", common.rand_bytes(rng, 32)])
@@ -980,7 +993,7 @@ def s_taproot(ctx, rng):
     for ln in (0, 1, 31, 33, 64):
         L["tap.outroot"].append(f"dual.tap.outroot {hx(G[0].to_bytes(32, 'big'))} {hx(common.rand_bytes(rng, ln))}")
     # control blocks: built with the real code, then the lattice of edits
-    for _ in range(ctx.n(12, 200)):
+    for _ in range(ctx.n(36, 800)):
         q = g_scalar(rng)
         Q = _PY_MULT(q)
         n_leaf = rng.choice([1, 2, 3, 4])
@@ -1024,7 +1037,7 @@ def s_misc(ctx, rng):  # noqa: PLR0915
     for size in (0, -1, 1, 32, 33, 255 * 32, 255 * 32 + 1, 2**40):
         ctx.count("dh.class", f"size_{size}")
         L["dh"].append(f"dual.dh {g_scalar(rng)} {f_pt(g_point(rng))} {size}")
-    for _ in range(ctx.n(25, 400)):
+    for _ in range(ctx.n(75, 1600)):
         L["dh"].append(f"dual.dh {g_scalar(rng)} {f_pt(g_point(rng))} 32")
         ctx.count("dh.class", "random_valid")
     for cs, qq in scalar_lattice(rng):
@@ -1035,7 +1048,7 @@ def s_misc(ctx, rng):  # noqa: PLR0915
         ctx.count("ell.class", "encode_" + ck)
         L["ell.encode"].append(f"dual.ell.encode {hx(key) if key else '_'}")
         L["sp.shared"].append(f"dual.sp.shared {g_scalar(rng)} {hx(key) if key else '_'}")
-    for _ in range(ctx.n(20, 400)):
+    for _ in range(ctx.n(60, 1600)):
         qa, qb = g_scalar(rng), g_scalar(rng)
         L["ell.create"].append(f"dual.ell.create {qa}")
         L["ell.encode"].append(f"dual.ell.encode {hx(sec_of(g_point(rng)))}")
@@ -1063,7 +1076,7 @@ def s_misc(ctx, rng):  # noqa: PLR0915
         L["ell.xdh"].append(f"dual.ell.xdh {hx(common.rand_bytes(rng, 64))} {hx(common.rand_bytes(rng, 64))} {qq} 0")
         ctx.count("commit.class", "nonce_" + cs)
         L["commit"].append(f"dual.commit {hx(common.rand_bytes(rng, 32))} {qq} {hx(b'tag')}")
-    for _ in range(ctx.n(20, 300)):
+    for _ in range(ctx.n(60, 1200)):
         ctx.count("commit.class", "random")
         L["commit"].append(f"dual.commit {hx(common.rand_bytes(rng, rng.choice([0, 20, 32, 64])))} {g_scalar(rng)} {hx(common.rand_bytes(rng, rng.choice([0, 3, 32])))}")
     for api, lines in L.items():
@@ -1072,7 +1085,7 @@ def s_misc(ctx, rng):  # noqa: PLR0915
 
 def s_musig(ctx, rng):  # noqa: PLR0915
     L = []
-    for _ in range(ctx.n(8, 120)):
+    for _ in range(ctx.n(24, 480)):
         k = rng.choice([1, 2, 2, 3, 5])
         prvs = [g_scalar(rng) for _ in range(k)]
         msg = common.rand_bytes(rng, rng.choice([32, 32, 32, 0, 38]))
@@ -1121,7 +1134,7 @@ def s_musig(ctx, rng):  # noqa: PLR0915
 def s_sp(ctx, rng):  # noqa: PLR0915
     Lo, Ls = [], []
     sig70 = b"\x30" + bytes(70)
-    for _ in range(ctx.n(10, 150)):
+    for _ in range(ctx.n(30, 600)):
         n_in = rng.choice([1, 1, 2, 3])
         ins = []
         for _i in range(n_in):
@@ -1352,7 +1365,7 @@ ORACLES["switch"] = _o_switch
 
 
 def s_switch(ctx, rng):
-    for _ in range(ctx.n(6, 60)):
+    for _ in range(ctx.n(18, 240)):
         m, Q = g_scalar(rng), g_point(rng)
         line = rng.choice([f"dual.mult {m} {f_pt(Q)}", f"dual.pubkey {m} 1", f"dual.dsa.sign {hx(common.rand_bytes(rng, 32))} {m} - 1 1 1 -",
                            f"dual.ssa.sign {hx(common.rand_bytes(rng, 32))} {m} {hx(bytes(32))} 1", f"dual.tweakadd {f_pt(Q)} {m}"])
@@ -1382,7 +1395,9 @@ def _impl_verdict(line: str) -> str:
     return "value"
 
 
-def s_verdict(ctx, rng):  # noqa: PLR0912, PLR0915
+def s_verdict(ctx, rng, register_only=False):  # noqa: PLR0912, PLR0915
+    import random  # noqa: PLC0415
+    rng = random.Random(f"verdict/{ctx.seed}")  # own stream: a recorded line can be rebuilt by --replay
     q = rng.randrange(2, N)
     Q = _PY_MULT(q)
     nx = non_x(rng)
@@ -1465,6 +1480,8 @@ def s_verdict(ctx, rng):  # noqa: PLR0912, PLR0915
     by_api: dict[str, list[str]] = {}
     for api, ln in classes:
         by_api.setdefault(api, []).append(ln)
+    if register_only:
+        return
     for api, lines in by_api.items():
         ctx.stream(f"verdict.{api}", lines, nontrivial=lambda _l, out: not out.startswith("err"))
         ctx.exhaustive_streams.append(f"verdict.{api}")
@@ -1508,6 +1525,8 @@ _GREP: dict[str, tuple] = {}
 
 
 def _impl_guard(line: str) -> str:
+    if line not in _GREP:
+        return "no-representative"
     module, dotted, serving, thunk = _GREP[line]
     with arm(serving), spy(module, dotted) as hit:
         with contextlib.suppress(Exception):
@@ -1515,8 +1534,10 @@ def _impl_guard(line: str) -> str:
     return "ok 1" if hit else "ok 0"
 
 
-def s_guard(ctx, rng):  # noqa: PLR0915
+def s_guard(ctx, rng, register_only=False):  # noqa: PLR0915
     import json as _json  # noqa: PLC0415
+    import random  # noqa: PLC0415
+    rng = random.Random(f"guard/{ctx.seed}")  # own stream: a recorded line can be rebuilt by --replay
     from btclib.curves import CURVES  # noqa: PLC0415
     sha256 = _curve.sha256
     idx = _json.load(open(os.path.join(common.LEAN, "Generated", "index.json")))  # noqa: F841
@@ -1538,7 +1559,7 @@ def s_guard(ctx, rng):  # noqa: PLR0915
         _GREP[ln] = (module, dotted, serving, thunk)
         lines_by_site.setdefault(site, []).append(ln)
 
-    reps = ctx.n(3, 30)
+    reps = ctx.n(3, 60)
     for _ in range(reps):
         for serving in (True, False):
             for ec in (EC, r1):
@@ -1615,8 +1636,36 @@ def s_guard(ctx, rng):  # noqa: PLR0915
             for qb in (G[0].to_bytes(32, "big"), b"\x02" + G[0].to_bytes(32, "big"), bytes(31)):
                 emit("taproot_check_output_pubkey__tweak_add_check", taproot, "libsecp256k1_xonly.tweak_add_check", serving,
                      lambda qb=qb: taproot.check_output_pubkey(qb, b"\x51", b"\xc0" + G[0].to_bytes(32, "big")), q_len_32=len(qb) == 32)
+    if register_only:
+        return
     for site, lines in lines_by_site.items():
         ctx.stream(f"guard.{site}", lines, nontrivial=lambda _l, out: out == "ok 1")
+
+
+def replay(ctx, rec):
+    """re-execute one recorded finding on the current tree"""
+    res = {"still_fails": False}
+    w = rec.get("property_oracle")
+    if w:
+        ok, detail = ORACLES[w["oracle"]](w["witness"])
+        res.update(oracle=w["oracle"], ok=ok, detail=detail, still_fails=not ok)
+        return res
+    line = rec.get("op_line")
+    if not line:
+        res["note"] = "record names obligations/streams only; re-run the check itself"
+        res["still_fails"] = bool(ctx.broken)
+        return res
+    sub = common.Ctx(PROP, rec.get("tier", "quick"), int(rec.get("seed", 0)), driver_ok=ctx.driver_ok)
+    sub.harness = sys.modules[__name__]
+    if line.startswith("verdict "):
+        s_verdict(sub, None, register_only=True)
+    elif line.startswith("guard "):
+        s_guard(sub, None, register_only=True)
+    out = ctx.model(EXE, [line])
+    got = impl(line)
+    res.update(op_line=line, impl=got, model=out[0] if out else None)
+    res["still_fails"] = out is None or out[0] != mcanon(line.split(" ")[0].replace("dual.", ""), got)
+    return res
 
 
 def run(ctx):
